@@ -193,6 +193,13 @@ fn explore_graph(lang: Lang, multi: bool, loc: &'static str, nversions: usize, c
             let mut h = hist.clone();
             h.push(vname.to_string());
             let detail = |what: &str| json!({"lang": lang.name(), "mode": mode, "history": h, "argv": r.argv, "state_before": show(&st), "state_after": show(&r.after), "fresh_output": show(&fresh[vi].after), "touched_files": r.touched, "exit_code": r.code, "stderr": r.stderr, "observation": what});
+            // a run that does not end is reported once; the graph is not explored further (every later transition
+            // would wait for the watchdog again)
+            if r.class == "hang" && fresh[vi].class != "hang" {
+                res.vios.push(Violation { sig: format!("C17|{}|{mode}|run-does-not-terminate-on-previous-output|version={vname}", lang.name()), detail: detail("the run onto this previous output did not end within the watchdog; a run into an empty location does") });
+                res.states = seen.len();
+                return res;
+            }
             // I3: same exit status class as the fresh run
             if r.class != fresh[vi].class {
                 res.vios.push(Violation { sig: format!("C17|{}|{mode}|exit-status-depends-on-previous-output|version={vname}|fresh={}|observed={}", lang.name(), fresh[vi].class, r.class), detail: detail("exit status differs from a run into an empty location") });
